@@ -16,7 +16,12 @@ def gen(n):
     return GENERIC.get(n, n)
 
 
+VALUE_MODE = ["distinct"]      # "distinct": every name its own value; "zero": every value 0.0 (a falsy coordinate is a coordinate)
+
+
 def value_of(name, k=0):
+    if VALUE_MODE[0] == "zero":
+        return 0.0
     return float(NAMES.index(name)) + 1.25 + 100.0 * k
 
 
@@ -66,6 +71,21 @@ def check_built(desc, S, cls, who, recs, exact_flavor=True, require_all=True, al
 
 
 def run_names_case(nc):
+    recs, calls = [], 0
+    for mode in ("distinct", "zero"):
+        VALUE_MODE[0] = mode
+        try:
+            r, c = run_names_case_mode(nc)
+        finally:
+            VALUE_MODE[0] = "distinct"
+        for x in r:
+            x["values"] = mode
+        recs += r
+        calls += c
+    return recs, calls
+
+
+def run_names_case_mode(nc):
     import awkward as ak
     import vector
 
